@@ -21,9 +21,7 @@ class is_long_year:
     def args(F):
         return dict(year=F.int("year"))
 
-    def requires(year):
-        return [("year_range", spec.valid_year(year))]
-
+    # total on ints (the parser calls it before any range check): the proleptic rule, for every integer year
     def value(year):
         return spec.iso_long_year(year)
 
@@ -33,8 +31,9 @@ class week_day:
     def args(F):
         return dict(year=F.int("year"), month=F.int("month"), day=F.int("day"))
 
+    # total on ints with month in 1..12 (table look-up): the proleptic rule for every integer year and day
     def requires(year, month, day):
-        return [("valid_date", spec.valid_date(year, month, day))]
+        return [("month_in_table", sym.between(1, month, 12))]
 
     def value(year, month, day):
         return spec.iso_weekday(year, month, day)
